@@ -73,7 +73,13 @@ def run(chk, tier):
     import partialinit
     npi, pirecs = partialinit.run(chk, P, ["memattrs.c"])
     chk.floor("R-PARTIALINIT", "successful returns of record initialisers", npi, 2)
-    chk.decided += ['an initiator location converted from the user structure is complete before it is copied into a new initiator (get_initiators never returns an unset object pointer)',
+    chk.rule("R-COUNTFAIL", "a function of the memory-attribute code that appends to a counted array does not count the new element before it is complete: explored with the count seeded and "
+             "allocations / callees forked into failed and succeeded, every failing exit still sees the seeded count (a counted, abandoned slot is later enumerated and released as if complete)")
+    import countfail
+    ncf = countfail.run(chk, P, ["memattrs.c"])
+    chk.floor("R-COUNTFAIL", "count-raising functions with a failing exit", ncf, 2)
+    chk.decided += ['a failed hwloc_memattr_set_value()/register() does not leave a counted but incomplete target, initiator or attribute behind',
+                    'an initiator location converted from the user structure is complete before it is copied into a new initiator (get_initiators never returns an unset object pointer)',
                     "compaction of targets/initiators after a refresh copies the surviving entry down, never the dropped one over it",
                     "after hwloc_topology_dup() the copy's cached targets/initiators are invalidated (values survive dup and are re-resolved against the copy)",
                     "register: unique name loop and exactly one ordering flag (all words)", "*nr overflow convention: stores bounded by the caller's capacity, count reported",
